@@ -7,6 +7,11 @@ open Neutrino.Net
 #print axioms C04_fair_enabled
 #print axioms C04_rank
 #print axioms C04_progress_fair
+#print axioms C04_syncpeer_sites
+#print axioms C04_syncPeer_connected
+#print axioms C04_progress_enabled
+#print axioms C04_done_reselects
+#print axioms C04_select_some
 #print axioms step_tip
 #print axioms step_good
 #print axioms step_rank
